@@ -17,7 +17,7 @@ from harness import common
 BOUNDS = {
     "quick": {"metrics": "all valid classes of verif.metric + 6 diagrams asked for csv", "axes": "3 of the 19 -x dimensions per metric (rotating)",
               "dataset": "2 inputs, 2 times x 2 lead times x 2 locations; one location may be entirely missing (thorough: also one time); ordinary / constant forecast / zero observations / perfect forecast",
-              "variants": "default, -b below= -r 1, -agg median, -r 1,3 -b within"},
+              "variants": "default, -b below= -r 1, -agg median, -r 1,3 -b within; driver_plot_bins: 28 diagrams x 8 bin types x -r with 1/2/4 values on the ordinary dataset"},
     "thorough": {"metrics": "same", "axes": "all 19", "dataset": "same plus a single-time, single-location dataset", "variants": "same + -agg 0.9, -b above="},
 }
 ASSUMPTIONS = ["cells are concrete numbers switched by symbolic flags decided up front: one location missing, one time missing, and one of {ordinary, constant forecasts, all-zero observations, forecast == observation}", "csv numbers are realised (one representative per path) for printing",
@@ -42,7 +42,7 @@ def metric_names():
     return sorted(names)
 
 
-def build_inputs(S, small, with_missing_time=True):
+def build_inputs(S, small, with_missing_time=True, flags=True):
     """Two inputs whose cells are concrete numbers switched by symbolic flags:
     one location / one time entirely missing, constant forecasts (zero
     variance), all-zero observations (zero denominators), forecast == obs."""
@@ -54,9 +54,9 @@ def build_inputs(S, small, with_missing_time=True):
     ins = []
     # the flags are symbolic booleans decided up front (the solver enumerates the feasible
     # combinations); the cells are then concrete, which keeps each of the many runs cheap
-    miss_loc = bool(S.boolean("location-missing"))
-    miss_time = bool(S.boolean("time-missing")) if with_missing_time else False
-    degenerate = S.choose("degenerate", 4)
+    miss_loc = bool(S.boolean("location-missing")) if flags else False
+    miss_time = bool(S.boolean("time-missing")) if with_missing_time and flags else False
+    degenerate = S.choose("degenerate", 4) if flags else 0
     const_fc = degenerate == 1
     zero_obs = degenerate == 2
     perfect = degenerate == 3
@@ -226,6 +226,56 @@ def h_plot(n_types, variants, with_missing_time=False):
     return fn
 
 
+BIN_TYPES = ["below", "below=", "=within", "within", "within=", "=within=", "above", "above="]
+
+
+def h_plot_bins():
+    """Every diagram x every bin type x one / two / three thresholds, on the ordinary dataset
+    (no degenerate classes): the gates that turn an unsupported bin type into an error exit."""
+    rs = [["-r", "1"], ["-r", "1,3"], ["-r", "0,1,2,3"]]
+
+    def fn(S):
+        from symx import mplstub
+        drv = load.modules["verif.driver"]
+        inp = load.modules["verif.input"]
+        out = load.modules["verif.output"]
+        util = load.modules["verif.util"]
+        S.allow_realize(True)
+        S.messages_may_format_numbers()
+        name = ALL_DIAGRAMS[S.choose("diagram", len(ALL_DIAGRAMS))]
+        b = BIN_TYPES[S.choose("bin", len(BIN_TYPES))]
+        r = rs[S.choose("r", len(rs))]
+        ins = build_inputs(S, False, False, flags=False)
+        files = {"A.txt": ins[0], "B.txt": ins[1]}
+        stub = mplstub.Pyplot()
+        saved = (inp.get_input, out.mpl, util.mpl)
+        inp.get_input = lambda f: files[f]
+        out.mpl = stub
+        util.mpl = stub
+        argv = ["verif", "A.txt", "B.txt", "-m", name, "-f", "out.png", "-b", b] + r
+        code, crash = None, None
+        try:
+            try:
+                drv.run(argv)
+            except SystemExit as e:
+                code = e.code if e.code is not None else 0
+            except Exception as e:
+                from symx.explore import _where
+                import traceback
+                text = "%s: %s" % (type(e).__name__, e)
+                frames = traceback.extract_tb(e.__traceback__)
+                if any("mplstub" in fr.filename for fr in frames) or "Generic" in text or "_CallableOrObject" in text:
+                    S.note("stub limitation: %s" % text[:100])
+                    return
+                crash = "%s@%s" % (type(e).__name__, _where(e.__traceback__))
+        finally:
+            inp.get_input, out.mpl, util.mpl = saved
+        what = " ".join(argv[3:])
+        S.prove("no-unhandled-exception-before-the-draw-calls", crash is None, detail="%s: %s" % (what, crash))
+        S.prove("error-exits-are-non-zero", code is None or code != 0, detail=what)
+    return fn
+
+
 def harnesses(tier):
     thorough = tier == "thorough"
     variants = [[], ["-b", "below=", "-r", "1"], ["-agg", "median"], ["-r", "1,3", "-b", "within"]]
@@ -237,6 +287,7 @@ def harnesses(tier):
     pvariants = [[], ["-r", "1,3"], ["-x", "location"]] + ([["-b", "below=", "-r", "1"], ["-x", "time"], ["-q", "0.1,0.9"]] if thorough else [])
     hs.append(Harness("driver_plot", h_plot(len(PLOT_TYPES) if thorough else 3, pvariants, with_missing_time=thorough),
                       "every diagram and output type up to the pyplot boundary (recording stub)", path_budget_s=60, max_paths=400000))
+    hs.append(Harness("driver_plot_bins", h_plot_bins(), "every diagram x 8 bin types x 1/2/4 thresholds up to the pyplot boundary", path_budget_s=60))
     if thorough:
         hs.append(Harness("driver_csv_text.tiny", h_csv(len(AXES), variants, small=True), "single time, single lead time, single location"))
     return hs
